@@ -112,6 +112,24 @@ func variants(full []byte, rng *rand.Rand, all bool, perField int) []variant {
 			}
 		}
 	}
+	// every 32-bit length or count prefix replaced by boundary values
+	for _, fr := range fieldRanges(raw) {
+		if !strings.HasSuffix(fr.name, "len") || fr.hi-fr.lo != 4 {
+			continue
+		}
+		cur := binary.BigEndian.Uint32(raw[fr.lo:])
+		for _, nv := range []uint32{0, 1, cur - 1, cur + 1, 1 << 16, 1<<31 - 1, 1<<32 - 1, 0x10000000} {
+			if nv == cur {
+				continue
+			}
+			if fr.name == "oldmacslen" {
+				continue
+			}
+			b := cloneBytes(raw)
+			binary.BigEndian.PutUint32(b[fr.lo:], nv)
+			add(fr.name+"/huge", b)
+		}
+	}
 	// truncations and extensions
 	cuts := []int{}
 	if all {
